@@ -30,6 +30,11 @@ the plain letters of the directory + ``/f`` (subsequence matching, on by default
 are only produced for ``cd`` and are relative to the CDPATH entry, which never appears in the
 inserted text; fuzzy matching is off by default: both are not explored.)
 
+Part 1e (closed quote + typed tail).  What the line looks like after accepting a quoted directory
+completion and typing on: ``<q>dir/<q>f``, ``<q>dir<q>/f``, ``<q>di<q>r/f`` for the 7 quoted styles,
+directory and file names plain and with a blank; full pipeline, spliced with the returned prefix_len
+(the completer's prefix length must cover the tail typed after the closing quote).
+
 Part 2 (analyser totality).  ``CompletionContextParser.parse(text, cursor)`` for ALL strings up to
 a length bound over a 20-symbol alphabet x every cursor position: never raises, and the context's
 prefix / suffix (command context) or code slice (python context) reproduce the text around the
